@@ -33,6 +33,10 @@ CLAIMED = {
                 tech=TECH, note=NOTE),
     'C11': dict(cat='proof', ref='6/C11', text='DeferredWriter::inv() (buffer = suffix of the ghost written stream; accepted bytes are a strictly increasing index selection of it; exact when no sink failure) is preserved by every method incl. the Write impl and drop; error parking, single report and sink quiescence are postconditions; integer writing appends the canonical text (itoap assumed).',
                 tech=TECH, note=NOTE + 'itoap (write_to_ptr, write) and Write::write_all are assumed; the staged-bytes prophecy for buf_write_ptr/advance_unchecked is an axiom (axiom_staged).'),
+    'C03': dict(cat='proof', ref='0.4, 6/C03', text='Proved, unbounded, at the level of codecs and entries (NOT yet whole documents): (1) 7-bit group codec: Writer::write_binary_uint appends varint_enc(n); binary_uint and delta_code accept every encoding of a usize and return exactly its value, consuming exactly the encoding; lemma_varint_roundtrip ties the two for all n. (2) decimal codec: the integer writer appends canon_dec(v) (itoap assumed canonical); lemma_canon_at: that text followed by a non-digit scans back as v, canonically. (3) binary AIGER writer: write_header (trailing zero fields dropped down to five), write_lit, write_count, write_latch (three reset forms), write_and_gate (input swap, deltas, order assertion), write_symbol, write_comment each append exactly the rendering r_*(entry). (4) every AIGER/CNF/BTOR2 token and section reader under contract has an exact (two-sided where stated) functional postcondition over the stream, so a parser that reads something else than what is written fails its own clause; Dimacs::from_dimacs is lossless under the range check. Not covered: ascii AIGER writer, DIMACS/WCNF/GCNF writers, BTOR2 write_into/next_line, whole-file drivers parse()/write_ordered_aig, entry-level parse(render(x)) == x lemmas for header/latch/symbol; known unrepaired gaps D4 (B/C/J/F header limits) and D9 (DecimalConst) are outside the functions under contract.' + SCOPE,
+                tech=TECH, note=NOTE + 'itoap output = canon_dec (assumption, stated as the WInt impls in prelude/codec.rs).'),
+    'C12': dict(cat='other', ref='0.4, 6/C12', text='Partial: proved (Verus, unbounded) are the LitMap polarity algebra (insert/get/contains_key against lookup/xor1/var_of), Aig::lit_defs (constant, inputs and gate outputs are pairwise distinct variables; error iff a duplicate exists) and the order discipline of binary and-gates on both sides (write_and_gate asserts and encodes larger-input-first deltas; next_and_gate returns inputs[1] <= inputs[0] <= own code). NOT proved and NOT claimed: anything about Renumber::initialize/transfer/renumber_aig - functional equivalence, consecutive numbering, cycle/undefined detection, termination. A change confined to transfer is not detected by this check (seeded change C12-A is missed).',
+                tech=TECH, note=NOTE + 'vstd HashMap model with obeys_key_model for the Lit types.'),
     'C13': dict(cat='proof', ref='6/C13', text='All eight decimal scanners are verified once, generically over a trait ScanInt whose 12 impls (i8..i128,u8..u128,isize,usize) are themselves verified against the primitive overflowing ops: result == exact decimal value iff representable, offset == end of the digit run, lone minus not consumed; the multi variants have the same postcondition as the simple ones (fast == simple). The SWAR kernel is proved equal to a byte-wise reference for all 2^64 words by Kani; the reference is proved against dec/digits_len by Verus.',
                 tech=TECH + '; Kani/CBMC complete harness for the 8-byte kernel', note=NOTE + 'num-traits impls = inherent ops (R7).'),
     'C14': dict(cat='proof', ref='6/C14', text='Every unsafe operation of reader, writer and scanners is rewritten to a shim whose precondition is its safety condition, and that precondition is proved from wf()/inv() and the guards; documented panics are unwinding points at which wf() and the unchanged view are asserted; the load-bearing assert on the byte count returned by Read::read is needed for wf(). AddressSanitizer runs are not applicable.',
@@ -74,7 +78,7 @@ m = {
          'kind_free_text': 'scratch copy of /repo with appended #[cfg(kani)] harness modules; complete (loop-free / fully unwound) harnesses; counterexamples replayed natively'},
     ],
     'checks': checks,
-    'not_applicable': [{'property_id': p['id'], 'reason': 'not claimed yet: contracts for the functions this property depends on are still being built (DESIGN.md section 10); no bounded stand-in is offered in place of a deductive core'}
+    'not_applicable': [{'property_id': p['id'], 'reason': 'not claimed: no function this property depends on is under contract yet (DESIGN.md section 0.4)'}
                        for p in props if p['id'] not in CLAIMED],
     'notes': 'exit 0 = every obligation tagged with the property discharged; exit 1 = VIOLATION lines (failed named obligation; suffix no-failing-input-found when the verifier gave no counterexample); exit 2 = UNDECIDED (lost anchor, unsupported construct, rlimit).',
 }
